@@ -61,7 +61,7 @@ def build():
                pre_rewrite=[('for (idx, line) in text.lines().enumerate() {', 'let lines_v = str_lines(text);\n    for (idx, line) in lines_v.iter().enumerate() {', 1),
                             ('let trimmed = line.trim();', 'let trimmed = str_trim(line);', 1),
                             ('if trimmed.is_empty() {', 'if str_is_empty(trimmed) {', 1),
-                            ('match IpAddr::from_str(trimmed) {', 'match ip_from_str(trimmed) {', 1)],
+                            (re.compile(r'IpAddr::from_str\((\w+)\)'), r'ip_from_str(\1)', None)],
                ensures=[
                    C('C19.reload.refused_iff_no_parsable_address', '(r is Refuse) == (parsed(%s, %s).len() == 0)' % (L, N)),
                    C('C19.reload.applied_list_is_exactly_the_parsable_lines_in_order', 'r is Apply ==> r->ips@ == parsed(%s, %s)' % (L, N)),
